@@ -224,6 +224,13 @@ class UnifiedRTFEncoder(EncodingStrategy):
         for page in pages:
             rows = page.data.height
             page.data = processed_df.slice(current_idx, rows)
+            if current_idx > 0 and rows > 0 and page.table_attrs is not None:
+                # Row-wise (matrix) attributes are looked up relative to the
+                # page's first row when the page is encoded: give each page the
+                # rows of the matrix that belong to its slice of the table.
+                page.table_attrs = self._slice_attribute_rows(
+                    page.table_attrs, current_idx, rows
+                )
             current_idx += rows
 
         # 2. Re-implementation of group_by logic
@@ -248,6 +255,24 @@ class UnifiedRTFEncoder(EncodingStrategy):
                 rows = p.data.height
                 p.data = restored.slice(curr, rows)
                 curr += rows
+
+    @staticmethod
+    def _slice_attribute_rows(attrs: Any, start: int, nrows: int) -> Any:
+        """Copy of ``attrs`` whose matrix attributes start at table row ``start``."""
+        sliced = attrs.model_copy()
+        for name in type(attrs).model_fields:
+            value = getattr(attrs, name)
+            if (
+                isinstance(value, (list, tuple))
+                and len(value) > 1
+                and all(isinstance(row, (list, tuple)) for row in value)
+            ):
+                setattr(
+                    sliced,
+                    name,
+                    [list(value[(start + k) % len(value)]) for k in range(nrows)],
+                )
+        return sliced
 
     def _encode_figure_only(self, document: RTFDocument):
         """Encode a figure-only document."""
